@@ -1180,6 +1180,7 @@ def main():
                               "replay": "compile network '%s' with %s; inspect sg.schedule.cost_map[op].npu_weights_tensor.encoded_ranges vs ofm_depth_slices" % (name, " ".join(opts))})
         # (B) every emitted NPU operation with weights: channel cover of its stripe + its address ranges
         tlines, tmeta = [], []
+        mlines, mreal, mmeta = [], [], []
         for st_ in res.streams:
             if not st_.npu_ops or st_.op_to_cmd is None:
                 continue
@@ -1213,7 +1214,27 @@ def main():
                 tlines.append(" ".join(tl.split()))
                 tmeta.append((pop.name, c0, c1, buffered, sep, sorted({r[1] for r in wr})))
                 ck.count("emitted_ops_with_weights")
+                # model correspondence of create_weights on the emitted operation (all three shapes: in place, buffered, stand-alone scales)
+                mlines.append("wl_addr %d %d %s %d %d %d %d %d %d %s %d" % (
+                    st_.arch.ncores, len(wr), fmt_ranges(wr), int(src.address or 0), int(buffered), int(wtens.address or 0) if buffered else 0,
+                    int(sep), int(cmd.scale_tensor.address or 0) if sep else 0, len(sr), fmt_ranges(sr), c0))
+                mreal.append(f"w {addr_str(nop.weights)} b {addr_str(nop.biases)}")
+                mmeta.append((pop.name, c0, c1, buffered, sep))
+                if sep:
+                    ck.count("emitted_ops_standalone_scales")
+                    if len(sr) > 1:
+                        ck.count("emitted_ops_standalone_scales_several_ranges_%dcore" % st_.arch.ncores)
+                    if buffered:
+                        ck.count("emitted_ops_standalone_scales_buffered_weights")
+        mo_ = ck.model([" ".join(x.split()) for x in mlines])
+        mdis = [(o, r, m) for o, r, m in zip(mo_, mreal, mmeta) if o.split(" dma")[0] != r]
+        ck.count("emitted_ops_create_weights_model_compared", len(mlines))
         to = ck.model(tlines)
+        if mdis and all(o == "ok" for o in to):
+            o, r, m = mdis[0]
+            ck.violation(f"correspondence createWeights vs high_level_command_to_npu_op.create_weights broken on {len(mdis)} emitted operations of {name} "
+                         f"(first: {m[0]}, channels [{m[1]}, {m[2]}), buffered={m[3]}, stand-alone scales={m[4]})",
+                         {"correspondence": "wl_addr", "network": name, "options": opts, "model": o[:600], "implementation": r[:600]}, found_input=False)
         for o, m, tl in zip(to, tmeta, tlines):
             if o != "ok":
                 ck.count("emitted_op_fail")
@@ -1439,7 +1460,8 @@ def main():
     ck.finish({
         "evaluations": len(breqs) + len(rt_lines) + len(prep_reqs) + len(lines) + len(spec_reqs) + len(addr_reqs) + len(addr_spec) + len(addr_match) + len(seq_same_reqs)
         + ck.counters.get("pipe_requests", 0) + ck.counters.get("pipe_buffered_ops", 0) + ck.counters.get("final_costs", 0)
-        + ck.counters.get("emitted_ops_with_weights", 0) + ck.counters.get("emitted_weight_dmas", 0),
+        + ck.counters.get("emitted_ops_with_weights", 0) + ck.counters.get("emitted_weight_dmas", 0)
+        + ck.counters.get("transparency_requests", 0) + ck.counters.get("register_level_ops_judged", 0),
         "distinct_nontrivial": nontrivial,
         "rule": "case = one encode request (stub operator or scheduler-produced) or one request of a sequence against the compression cache; "
                 "non-trivial when it has >= 2 depth slices or runs on 2 cores or is answered from the cache; distinct by (case index, depth offsets, accelerator)",
@@ -1450,13 +1472,18 @@ def main():
         "disagreements": {"bias": len(bias_dis), "prep": len(prep_dis), "encode": len(enc_dis), "addr": len(addr_dis)},
         "cache_sequences": n_worlds,
         "networks_compiled": ck.counters.get("compile_ok", 0),
+        "cache_transparency_answers_judged": ck.counters.get("transparency_requests", 0),
+        "register_level_operations_judged": ck.counters.get("register_level_ops_judged", 0),
+        "shared_constants_networks": ck.counters.get("shared_consts_nets", 0),
         "exhaustive": False,
         "unreached_branches": ([] if ck.counters.get("outcome_err:index") else
                                ["Err.index (scale list shorter than bias list: _prepare_scale_and_bias always repeats or matches)"])
-        + ["model createWeights with a stand-alone scale tensor (scaleTensor = some ..): the real path is exercised through compiled "
-           "networks and judged by the Spec only"],
+        + ([] if ck.counters.get("emitted_ops_standalone_scales") else
+           ["model createWeights with a stand-alone scale tensor (scaleTensor = some ..): no compiled network produced one"]),
         "trusted_base_extra": ["scaling.quantise_scale / reduced_quantise_scale (property C09) supply the candidate (multiplier, shift) pairs",
-                               "mlw_codec.decode (property C07) turns weight sections back into integers"],
+                               "mlw_codec.decode (property C07) turns weight sections back into integers",
+                               "NumPy float32/double arithmetic evaluates the two scale quotients handed to the Lean quantiser (wl_prepq)",
+                               "harness/fbwalk.py reads the command stream and the constants tensor out of the output file"],
     }, assumptions=[
         "hardware contract: a depth slice is split over the cores by the channel's index within the slice modulo the core count; each core reads "
         "10-byte records then a 16-byte aligned weight stream from its own 16-byte aligned address",
